@@ -20,7 +20,7 @@ func init() {
 		ID:    "C19",
 		Title: "A file snapshot is a consistent, openable point-in-time copy",
 		Decides: "in TakeFileSnapshot (measure, stream, trace, sidx) the table snapshot is pinned before the link loop, stays pinned until the function returns (no use after release) and the manifest is written from that same pinned value after the links; the manifest lists only parts the link loop links (same mem-part filter); a failed snapshot removes its destination; " +
-			"the storage segment snapshot path never reaches the reopen/acquire functions, pins an open segment under the segment mutex only when it is open and releases it, and holds the mutex across the hard-link of a closed segment; the closed-segment filter excludes exactly the transient names; CreateHardLink skips a whole directory only for directories; trace reads its secondary-index map under the table lock.; the backup tool prunes the remote copy (deletes files of the previous backup) and reports success only when the directory walk and every upload returned no error",
+			"the storage segment snapshot path never reaches the reopen/acquire functions, pins an open segment under the segment mutex only when it is open and releases it, and holds the mutex across the hard-link of a closed segment; the closed-segment filter excludes exactly the transient names; CreateHardLink skips a whole directory only for directories; trace reads its secondary-index map under the table lock.; the backup tool prunes the remote copy (deletes files of the previous backup) and reports success only when the directory walk and every upload returned no error; a trace file snapshot takes its core view and its secondary-index views under one hold of the publication lock; within a segment the shards are copied before the series index",
 		NotDecided: "that the copy equals one state that existed (core and secondary-index views are pinned at different instants), behaviour under concurrent retention, durability of the copy after power loss.",
 		Technique:  "acquire/release pairing with use-after-release, CFG ordering, call-graph unreachability, must-lockset, filter-agreement on guarded appends",
 		Run:        runC19,
@@ -489,6 +489,47 @@ func (r *R) closedFilterRule() {
 			}
 		}
 		r.Check(ok, rule, "snapshotClosed passes includeInClosedSnapshot", r.fpos(sc), "the closed-segment hard-link uses the transient-name filter")
+	}
+
+	// trace: the core snapshot and the secondary-index snapshots of one file snapshot are taken under ONE hold of
+	// the publication lock (a merge introduced in between would make the copy's manifest and sidx directory disagree)
+	if f := r.fn("c19.core-and-sidx-one-publication", sibT.pkg, "(*tsTable).TakeFileSnapshot"); f != nil {
+		rule := "c19.core-and-sidx-one-publication"
+		held := func(in ssa.Instruction) bool {
+			for k, m := range locksOf(in.Parent()).At(in) {
+				if strings.HasSuffix(k, "snapshotPublicationMu") && m >= 1 {
+					return true
+				}
+			}
+			return false
+		}
+		n := 0
+		for _, in := range ssax.Find(f, func(in ssa.Instruction) bool {
+			cc := ssax.Common(in)
+			if cc == nil {
+				return false
+			}
+			nm := ssax.CalleeName(cc)
+			return nm == "(*"+sibT.pkg+".tsTable).currentSnapshot" || strings.HasSuffix(nm, "sidx.SIDX).TakeFileSnapshot") || strings.HasSuffix(nm, ".getAllSidx")
+		}) {
+			n++
+			r.Check(held(in), rule, fmt.Sprintf("%s: view #%d (%s) is taken under the publication lock", ssax.FuncName(f), n, ssax.CalleeName(ssax.Common(in))), r.pos(in),
+				"the core snapshot and the secondary-index snapshots are taken at different instants with no lock that excludes the introducer: a merge committed in between gives a copy whose manifest lists the merge inputs while its sidx holds the merged part; on open every sidx part not in the manifest is deleted and the restored shard has an empty secondary index")
+		}
+		r.Floor(rule, 2)
+	}
+	// storage: within one segment the shards are copied before the series index (an index copy newer than the shard
+	// copies knows every series of every copied part; the other order hides rows of new series)
+	if f := r.fn("c19.shards-before-series-index", stPkg, "(*segment).snapshotOpen"); f != nil {
+		r.neverAfter("c19.shards-before-series-index", f,
+			NM{"series index copy", func(in ssa.Instruction) bool {
+				cc := ssax.Common(in)
+				if cc == nil {
+					return false
+				}
+				nm := ssax.CalleeName(cc)
+				return strings.HasSuffix(nm, ".TakeFileSnapshot") && !strings.Contains(nm, "TSTable")
+			}}, call("iface:("+stPkg+".TSTable).TakeFileSnapshot"), nil)
 	}
 
 	// backup: the remote copy is pruned (files of the previous backup deleted) and success reported only when
